@@ -255,6 +255,7 @@ pub fn globals() -> &'static Globals {
             LibraryExtension::SetType,
         ]);
         harness_natives(&mut b);
+        crate::props::c08::c08_macro_natives(&mut b);
         b.build()
     })
 }
